@@ -496,7 +496,8 @@ func (w *World) typedNodeSlice(l []Value, depth int) interface{} {
 			elems[i] = w.toGo(e, depth+1)
 			t := reflect.TypeOf(elems[i])
 			if et != nil && et != t {
-				return nil
+				// members of different Go types: a slice typed by a non-empty Go interface they all satisfy
+				return nodeIfaceSlice(elems)
 			}
 			et = t
 		default:
@@ -513,6 +514,21 @@ func (w *World) typedNodeSlice(l []Value, depth int) interface{} {
 		}
 	}
 	return s.Interface()
+}
+
+func nodeIfaceSlice(elems []interface{}) interface{} {
+	out := make([]refluni.Node, len(elems))
+	for i, e := range elems {
+		if e == nil {
+			continue
+		}
+		n, ok := e.(refluni.Node)
+		if !ok {
+			return nil
+		}
+		out[i] = n
+	}
+	return out
 }
 
 func typedSlice(l []Value) interface{} {
